@@ -438,3 +438,46 @@ Section Adapters.
       destruct (IH ss' H2) as [-> ->]; auto.
   Qed.
 End Adapters.
+
+(** the replicate adapter among lists of ONE length (any framing; the legacy oracle writes no count) *)
+Theorem rep_public_prefix_free_fixed_size_ : forall {K : FieldOps} (P : proto K) k ok n,
+  public_prefix_free P k ok ->
+  public_prefix_free (rep_proto P) k (fun ss => List.length ss = n /\ Forall ok ss).
+Proof.
+  intros K P k ok n F ss ss' x y [L O] [L' O'] E. cbn [rep_proto p_public] in E. unfold each in E.
+  rewrite <- !app_assoc in E. apply app_inv_head in E. rewrite L, L' in E. apply app_inv_head in E.
+  assert (E1 : List.length ss = List.length ss') by congruence.
+  clear L L'. revert ss' O' E1 E. induction O as [|s ss Hs O IH]; intros [|s' ss'] O' E1 E; try discriminate.
+  - cbn in E. auto.
+  - inversion O'; subst. cbn [map List.concat] in E. rewrite <- !app_assoc in E.
+    destruct (F _ _ _ _ Hs H1 E) as [-> E'].
+    destruct (IH ss' H2) as [-> ->]; auto.
+Qed.
+
+(** a replicated proof whose response list has the wrong length is rejected *)
+Theorem rep_extract_length_ : forall {K : FieldOps} (P : proto K) ss c zs a,
+  p_extract (rep_proto P) ss c zs = Some a -> List.length zs = List.length ss.
+Proof.
+  intros K P ss c zs a. cbn. destruct (Nat.eqb (List.length ss) 0); [discriminate|].
+  destruct (Nat.eqb (List.length zs) (List.length ss)) eqn:E; [|discriminate]. intros _. now apply Nat.eqb_eq.
+Qed.
+
+(** one verification equation, two challenges: the public value is determined (row-wise special
+    soundness, used by instances that are not presented as one matrix) *)
+Section Rows.
+  Context {K : FieldOps} {KL : FieldLaws K} {M : ModOps K} {ML : ModLaws M}.
+  Add Field Kf_rows : (@F_th K KL).
+  Local Open Scope G_scope.
+  Lemma sub_neq_0 (c c' : K) : c <> c' -> Fsub K c' c <> F0 K.
+  Proof. intros Hc Z. apply Hc. transitivity (Fsub K c' (Fsub K c' c)); [ring | rewrite Z; ring]. Qed.
+  Lemma ss_row_l (c c' : K) (y a a' : M) : c <> c' -> c *: y + a = c' *: y + a' ->
+    y = Finv K (Fsub K c' c) *: (a - a').
+  Proof.
+    intros Hc E. rewrite <- (smul_inv_cancel (Fsub K c' c) y (sub_neq_0 c c' Hc)) at 1. f_equal.
+    assert (Ea : a = c' *: y + a' - c *: y) by (apply (Gadd_cancel_l (c *: y)); rewrite E; mod_norm).
+    rewrite Ea. mod_norm.
+  Qed.
+  Lemma ss_row_r (c c' : K) (y a a' : M) : c <> c' -> a + c *: y = a' + c' *: y ->
+    y = Finv K (Fsub K c' c) *: (a - a').
+  Proof. rewrite !(Gadd_comm _ (_ *: y)). apply ss_row_l. Qed.
+End Rows.
